@@ -141,6 +141,10 @@ ObjVerdict(e, heap, Want) ==
              [] e.op = "cmp"      -> IF w18 THEN CmpVerdict(e) ELSE {}
              [] e.op = "ordinal"  -> IF w18 THEN OrdinalVerdict(e) ELSE {}
              [] e.op = "sorted"   -> IF w18 THEN SortedVerdict(e) ELSE {}
+             [] e.op = "new_model" -> ConstructFails(e.args, e.model, Want)
+             \* an observation between calls: a rating holds what it held when its owner last looked (the caller's own
+             \* assignments are `assign` events); a constructor that keeps the caller's list, say, breaks this
+             [] e.op = "holds" -> IF w20 /\ ~SameData(e.a, e.was) THEN {"C20.rating_changed_outside_any_call"} ELSE {}
              [] e.op \in {"hash", "api", "assign", "setattr"} -> {}
              [] OTHER             -> {"bind.unknown_op:" \o e.op}
   IN  [fails |-> f, cls |-> {"op=" \o e.op} \cup (IF e.out.kind = "ok" THEN {"ok"} ELSE {"raise:" \o e.out.exc}), X |-> <<>>]
@@ -149,7 +153,8 @@ ObjTouched(e) ==
   CASE e.op \in {"rating", "create"} -> IF e.out.kind = "ok" THEN {e.out.value} ELSE {}
     [] e.op = "deepcopy" -> {e.arg_after} \cup (IF e.out.kind = "ok" THEN {e.out.value} ELSE {})
     [] e.op = "cmp"      -> {e.a_after, e.b_after}
-    [] e.op \in {"ordinal", "assign"} -> {e.a_after}     \* assign: the caller sets mu / sigma of a rating object
+    [] e.op \in {"ordinal", "assign"} -> {e.a_after}
+    [] e.op = "holds"    -> {e.a}     \* assign: the caller sets mu / sigma of a rating object
     [] OTHER             -> {}
 
 ---------------------------------------------------------------------------
@@ -226,9 +231,9 @@ Relation(g, e, X) ==
     [] role = "effopts" ->
          IF ~(IsRateEv(b) /\ IsRateEv(e) /\ Erase(b.teams) = Erase(e.teams) /\ b.ranks = e.ranks /\ b.scores = e.scores
               /\ [ModelParams(b.model0) EXCEPT !.tau = "", !.limit = ""] = [ModelParams(e.model0) EXCEPT !.tau = "", !.limit = ""]
-              /\ WFRateCall(b.model.kind, Call(b)) /\ Computable(b.model, Call(b)) /\ Computable(e.model, Call(e))
-              /\ REq(EffTau(b.model, Call(b)), EffTau(e.model, Call(e)))
-              /\ EffLimit(b.model, Call(b)) = EffLimit(e.model, Call(e)))
+              /\ WFRateCall(b.model.kind, Call(b)) /\ Computable(b.model0, Call(b)) /\ Computable(e.model0, Call(e))
+              /\ REq(EffTau(b.model0, Call(b)), EffTau(e.model0, Call(e)))          \* model0: the settings their owner chose
+              /\ EffLimit(b.model0, Call(b)) = EffLimit(e.model0, Call(e)))
            THEN {"bind.group_effopts_differ"}
          ELSE IF OutErased(b) = OutErased(e) THEN {} ELSE {GP(e, "same_effective_options_different_result")}
 
